@@ -734,6 +734,37 @@ func stdioCases() []plugCase {
 		}
 		return nil
 	}})
+	cases = append(cases, plugCase{"stdio", "NewIOReaderLine(long lines)", func() []fw.Violation {
+		// one line whose length crosses the buffer sizes readers use (bufio's 4096, a Scanner's 64 KiB
+		// token limit), between two short lines; a long line may arrive in several chunks
+		for _, n := range []int{4095, 4096, 4097, 8192, 65535, 65536, 65537, 200000} {
+			long := bytes.Repeat([]byte("x"), n)
+			long[n/2] = 'y'
+			text := "first\n" + string(long) + "\nlast\n"
+			rec := h.NewRec("out")
+			rostdio.NewIOReaderLine(&chunkReader{data: []byte(text), failAt: -1}).Subscribe(h.Observer[[]byte](rec))
+			evs := rec.Events()
+			if len(evs) == 0 || evs[len(evs)-1].K != h.C {
+				last := "nothing"
+				if len(evs) > 0 {
+					last = evs[len(evs)-1].Short()
+					if evs[len(evs)-1].K == h.E {
+						last = "Error(" + evs[len(evs)-1].Err.Error() + ")"
+					}
+				}
+				return []fw.Violation{fw.V("plugin/stdio.NewIOReaderLine/long-line/not-completed", fmt.Sprintf("a line of %d bytes between two short lines: the stream ended with %s after %d chunks", n, last, len(rec.Values())))}
+			}
+			var all []byte
+			vals := rec.Values()
+			for _, v := range vals {
+				all = append(all, v.([]byte)...)
+			}
+			if string(all) != "first"+string(long)+"last" || len(vals) < 3 || string(vals[0].([]byte)) != "first" || string(vals[len(vals)-1].([]byte)) != "last" {
+				return []fw.Violation{fw.V("plugin/stdio.NewIOReaderLine/long-line/content-differs", fmt.Sprintf("a line of %d bytes between two short lines: %d chunks, %d bytes in total, first %q last %q", n, len(vals), len(all), trunc(vals[0].([]byte)), trunc(vals[len(vals)-1].([]byte))))}
+			}
+		}
+		return nil
+	}})
 	cases = append(cases, plugCase{"stdio", "NewIOWriter", func() []fw.Violation {
 		var buf bytes.Buffer
 		chunks := [][]byte{[]byte("ab"), {}, []byte("c"), []byte("\xff\x00")}
